@@ -74,7 +74,7 @@ class Check:
         nrules = rng.randint(1, 7 if tier == 'quick' else 12)
         tagset = [None, 't1', 't2', 'runtime']
         for i in range(nrules):
-            kind = rng.choice(['data', 'data', 'headers', 'man', 'subdir', 'subdir', 'emptydir', 'symlink'])
+            kind = rng.choice(['data', 'data', 'headers', 'man', 'subdir', 'subdir', 'emptydir', 'symlink', 'ctarget'])
             sub = have_sub and rng.random() < 0.3 and kind in ('data', 'headers', 'emptydir')
             rule: T.Dict[str, T.Any] = {'kind': kind, 'sub': sub, 'id': i}
             if kind == 'data':
@@ -111,6 +111,12 @@ class Check:
                 if rng.random() < 0.3 and dirs:
                     rule['exclude_dirs'] = [rng.choice(dirs)]
                 rule['mode'] = rng.choice([None, None, 'rw-r--r--', 'rwxr-xr-x'])
+                rule['tag'] = rng.choice(tagset)
+            elif kind == 'ctarget':
+                rule['name'] = f'gen{i}' + rng.choice(['.dat', ' out.bin', '.sh'])
+                rule['exec'] = rule['name'].endswith('.sh')
+                rule['dir'] = rng.choice([f'share/g{i}', 'libexec/gen', f'/opt/gen {i}'])
+                rule['mode'] = rng.choice([None, None, 'rwxr-xr-x', 'rw-------'])
                 rule['tag'] = rng.choice(tagset)
             elif kind == 'emptydir':
                 rule['path'] = rng.choice([f'var/lib/e{i}', f'/var/spool/e {i}', f'share/empty{i}/nested'])
@@ -230,6 +236,11 @@ class Check:
                 if rule.get('mode'):
                     kw.append(f"install_mode: {q(rule['mode'])}")
                 out.append(f"install_subdir({q(rule['name'])}{''.join(', ' + x for x in kw)})\n")
+            elif k == 'ctarget':
+                kw.append(f"install_dir: {q(rule['dir'])}")
+                if rule.get('mode'):
+                    kw.append(f"install_mode: {q(rule['mode'])}")
+                out.append(f"custom_target({q('ct%d' % rule['id'])}, output: {q(rule['name'])}, command: ['true'], install: true{''.join(', ' + x for x in kw)})\n")
             elif k == 'emptydir':
                 if rule.get('mode'):
                     kw.append(f"install_mode: {q(rule['mode'])}")
@@ -272,9 +283,24 @@ class Check:
         sd = os.path.join(root, 'src')
         bd = os.path.join(root, 'bd')
         self.write_project(spec, sc.get('have_sub', False), sd)
-        r = M.meson(['setup', '--backend=none', bd, sd], capture=os.path.join(root, 'setup.log'), timeout=120)
+        ctargets = [r_ for r_ in spec['rules'] if r_['kind'] == 'ctarget']
+        if ctargets:
+            # installed build outputs need a backend that has targets: ninja (stub binary for detection only);
+            # the outputs are put into the build directory by hand, nothing is built
+            from .c05 import STUB_NINJA_DIR
+            env0 = M.clean_env()
+            env0['PATH'] = STUB_NINJA_DIR + os.pathsep + env0['PATH']
+            r = M.meson(['setup', '--backend=ninja', bd, sd], capture=os.path.join(root, 'setup.log'), timeout=120, env=env0)
+        else:
+            r = M.meson(['setup', '--backend=none', bd, sd], capture=os.path.join(root, 'setup.log'), timeout=120)
         if not r['ok'] or r['value'] != 0:
             return R.harness_error('setup of generated project failed: ' + (r.get('exc') or r['out'])[-2500:])
+        for r_ in ctargets:
+            pth = os.path.join(bd, 'subprojects', IR.SUB, r_['name']) if r_.get('sub') else os.path.join(bd, r_['name'])
+            os.makedirs(os.path.dirname(pth), exist_ok=True)
+            with open(pth, 'wb') as f:
+                f.write(IR.content_of('ctarget:' + r_['name']))
+            os.chmod(pth, 0o755 if r_.get('exec') else 0o644)
         ambient = sc.get('ambient_umask', 0o022)
         destmode = sc.get('destmode', 'arg-abs')
         if destmode.endswith('rel'):
@@ -546,6 +572,8 @@ class Check:
             root = os.path.join(sd, 'subprojects', IR.SUB) if r.get('sub') else sd
             t = IR.expected_tree({'prefix': spec['prefix'], 'umask': spec['umask'], 'rules': [r]}, destdir, {}, 0o022)
             if dst in t.items and t.items[dst][0] == 'file':
+                if r['kind'] == 'ctarget':
+                    return os.path.join(os.path.dirname(sd), 'bd', r['name'])
                 if r['kind'] == 'subdir':
                     base = os.path.join(IR.dest_join(destdir, r['dir']) if r['dir'].startswith('/') else
                                         os.path.join(IR.dest_join(destdir, spec['prefix']), r['dir']), '' if r.get('strip') else r['name'])
